@@ -1047,291 +1047,3 @@ Qed.
 
 End FixedEvents.
 
-(* ------------------------------------------------------------------ events *)
-
-Definition okres' (e w h : Z) (r : tres term) : Prop := exists t', r = TOk t' /\ WFs0 e w h t'.
-
-Lemma post_event_ok e w h t : WFs0 e w h t -> e < 2 ->
-  okres' (e + 1) w h (post_event t).
-Proof.
-  intros H He; unfold post_event. destruct H. destruct wf_ev0 as [Ee Hr].
-  destruct (t_ev t >=? 2) eqn:E; [lia|].
-  eexists; split; [reflexivity|]. constructor; simpl; auto. split; lia.
-Qed.
-
-Lemma post_event_stall w h t : WFs0 2 w h t -> post_event t = TStall.
-Proof.
-  intros H; unfold post_event. destruct H. destruct wf_ev0 as [Ee Hr].
-  destruct (t_ev t >=? 2) eqn:E; [reflexivity|lia].
-Qed.
-
-Lemma drain_ok e w h t : WFs0 e w h t -> WFs0 (if 0 <? e then e - 1 else e) w h (drain t).
-Proof.
-  intros H; unfold drain. destruct H. destruct wf_ev0 as [Ee Hr]. rewrite Ee.
-  destruct (0 <? e) eqn:E; constructor; simpl; auto; split; lia.
-Qed.
-
-(* sequences as the parser delivers them *)
-Definition item_ok (it : titem) : Prop :=
-  match it with
-  | TPrint _ w => 0 <= w
-  | TCsi _ ps _ => Forall nonempty ps
-  | _ => True
-  end.
-
-Lemma osc_event t p : raises_event (TOsc p) = true -> osc t p = post_event t.
-Proof.
-  unfold raises_event, osc.
-  destruct (cut59 p) as [[sel val] found].
-  destruct found; cbn [negb andb]; [|discriminate].
-  destruct (key_is sel [48] || key_is sel [50]) eqn:K1; [reflexivity|].
-  destruct (key_is sel [56]) eqn:K8.
-  { assert (key_is sel [57] = false /\ key_is sel [55; 55; 55] = false) as [-> ->].
-    { unfold key_is in *. destruct sel as [|a [|b [|c r]]]; simpl in *; try (split; reflexivity);
-        destruct (a =? 56) eqn:A; simpl in K8; try discriminate;
-        assert (a = 56) by lia; subst; split; reflexivity. }
-    apply Bool.orb_false_iff in K1; destruct K1 as [-> ->]. simpl. discriminate. }
-  destruct (key_is sel [57]) eqn:K9; [reflexivity|].
-  apply Bool.orb_false_iff in K1; destruct K1 as [-> ->]. cbn [orb].
-  destruct (key_is sel [55; 55; 55]) eqn:K7; [|discriminate].
-  cbn [andb].
-  destruct (cut59 val) as [[sel2 val2] found2].
-  destruct found2; cbn [negb andb]; [|discriminate].
-  destruct (key_is sel2 [110; 111; 116; 105; 102; 121]); cbn [andb]; [|discriminate].
-  destruct (cut59 val2) as [[a b] found3]. destruct found3; cbn [negb]; [reflexivity|discriminate].
-Qed.
-
-Lemma osc_quiet e w h t p : WFs0 e w h t -> raises_event (TOsc p) = false -> okres e w h (osc t p).
-Proof.
-  intros H; unfold raises_event, osc.
-  destruct (cut59 p) as [[sel val] found].
-  destruct found; cbn [negb andb]; [|intros _; now apply okres_ok].
-  destruct (key_is sel [48] || key_is sel [50]) eqn:K1; [discriminate|].
-  apply Bool.orb_false_iff in K1; destruct K1 as [K0 K2]. rewrite K0, K2. cbn [orb].
-  destruct (key_is sel [56]) eqn:K8.
-  { intros _. destruct (cut59 val) as [[a b] f]. destruct f; cbn [negb]; apply okres_ok; auto.
-    now apply WFs_set_pen. }
-  destruct (key_is sel [57]) eqn:K9; [discriminate|]. cbn [orb].
-  destruct (key_is sel [55; 55; 55]) eqn:K7; [|intros _; now apply okres_ok].
-  cbn [andb].
-  destruct (cut59 val) as [[sel2 val2] found2].
-  destruct found2; cbn [negb andb]; [|intros _; now apply okres_ok].
-  destruct (key_is sel2 [110; 111; 116; 105; 102; 121]); cbn [andb]; [|intros _; now apply okres_ok].
-  destruct (cut59 val2) as [[a b] found3]. destruct found3; cbn [negb]; [discriminate|intros _; now apply okres_ok].
-Qed.
-
-Lemma c0_quiet e w h t r : WFs0 e w h t -> r <> 7 -> okres e w h (c0 t r).
-Proof.
-  intros H Hr; unfold c0.
-  destruct (r =? 7) eqn:E7; [lia|].
-  repeat case_if; first [now apply lf_ok | apply okres_ok;
-    first [now apply bs_ok | now apply cht_ok | now apply cr_ok | now apply WFs_set_cs | assumption]].
-Qed.
-
-Lemma update_quiet e w h t it :
-  WFs0 e w h t -> item_ok it -> raises_event it = false -> okres e w h (update t it).
-Proof.
-  intros H Hi Hq; destruct it as [g pw|c|i f|i p f|p| | |]; cbn [update item_ok] in *.
-  - now apply print_ok.
-  - apply c0_quiet; auto. simpl in Hq; lia.
-  - now apply esc_ok.
-  - now apply csi_ok.
-  - now apply osc_quiet.
-  - now apply okres_ok.
-  - discriminate.
-  - now apply okres_ok.
-Qed.
-
-Lemma update_event t it : raises_event it = true -> update t it = post_event t.
-Proof.
-  intros Hr; destruct it as [g pw|c|i f|i p f|p| | |]; cbn [update] in *; try discriminate.
-  - simpl in Hr. unfold c0. rewrite Hr. reflexivity.
-  - now apply osc_event.
-  - reflexivity.
-Qed.
-
-(* ------------------------------------------------------------------ histories *)
-
-Definition hstep_ok (s : hstep) : Prop :=
-  match s with
-  | HFeed _ it => item_ok it
-  | HResize w h => 1 <= w /\ 1 <= h
-  end.
-
-(* the number of pending events along a history, computed from the schedule and the
-   sequences alone; None: an event is posted on the full channel *)
-Fixpoint pending (ev : Z) (hs : list hstep) : option Z :=
-  match hs with
-  | [] => Some ev
-  | HFeed d it :: rest =>
-      let ev1 := if d then (if 0 <? ev then ev - 1 else ev) else ev in
-      if raises_event it then (if ev1 >=? 2 then None else pending (ev1 + 1) rest)
-      else pending ev1 rest
-  | HResize _ _ :: rest => pending ev rest
-  end.
-
-Definition stall_free (hs : list hstep) : bool :=
-  match pending 0 hs with Some _ => true | None => false end.
-
-Lemma run_outcome : forall hs e w h t,
-  WFs0 e w h t -> Forall hstep_ok hs ->
-  match pending e hs with
-  | Some e' => exists t' w' h', run t hs = TOk t' /\ WFs0 e' w' h' t'
-  | None => run t hs = TStall
-  end.
-Proof.
-  induction hs as [|s rest IH]; intros e w h t H Hok; cbn [pending run].
-  - exists t, w, h; auto.
-  - inversion Hok as [|? ? Hs Hrest]; subst.
-    destruct s as [d it|w' h']; cbn [hstep_run hstep_ok] in *.
-    + set (e1 := if d then (if 0 <? e then e - 1 else e) else e).
-      assert (H1 : WFs0 e1 w h (if d then drain t else t)).
-      { unfold e1; destruct d; [now apply drain_ok | assumption]. }
-      assert (He1 : 0 <= e1 <= 2) by (destruct H1 as [? ? ? ? ? ? ? ? ? ? ? ? ? ? [_ ?]]; assumption).
-      destruct (raises_event it) eqn:R.
-      * rewrite (update_event _ _ R).
-        destruct (e1 >=? 2) eqn:E2.
-        { assert (e1 = 2) by lia. rewrite H0 in H1. rewrite (post_event_stall _ _ _ H1). reflexivity. }
-        destruct (post_event_ok e1 w h _ H1 ltac:(lia)) as [t1 [E1 W1]].
-        rewrite E1; cbn [tbind]. now apply (IH (e1 + 1) w h).
-      * destruct (update_quiet e1 w h _ it H1 Hs R) as [t1 [E1 W1]].
-        rewrite E1; cbn [tbind]. now apply (IH e1 w h).
-    + destruct Hs as [Hw Hh].
-      destruct (resize_ok e t w' h' (WFs_resizable e w h t H) Hw Hh) as [t1 [E1 W1]].
-      rewrite E1; cbn [tbind]. now apply (IH e w' h').
-Qed.
-
-Lemma term_new_resizable : resizable 0 term_new.
-Proof.
-  unfold resizable, term_new, saved_ok; simpl. repeat split; try lia.
-  - unfold default_tabs. apply Forall_forall; intros x Hx.
-    apply in_map_iff in Hx; destruct Hx as [k [<- _]]; lia.
-  - exists 0; constructor.
-Qed.
-
-Lemma start_ok w h : 1 <= w -> 1 <= h -> okres 0 w h (term_start w h).
-Proof. intros Hw Hh; unfold term_start. now apply resize_ok; [apply term_new_resizable| |]. Qed.
-
-Lemma pending_firstn n : forall hs e, pending e hs <> None -> pending e (firstn n hs) <> None.
-Proof.
-  induction n as [|n IH]; intros hs e H; [simpl; discriminate|].
-  destruct hs as [|s rest]; [simpl; discriminate|].
-  cbn [firstn pending] in *. destruct s as [d it|w h]; [|now apply IH].
-  repeat case_if; try congruence; now apply IH.
-Qed.
-
-Lemma Forall_firstn_hs {A} (P : A -> Prop) n (l : list A) : Forall P l -> Forall P (firstn n l).
-Proof. apply Forall_firstn'. Qed.
-
-(* from New(): after the first resize, for every prefix of every history *)
-Theorem term_safe_run w h hs :
-  1 <= w -> 1 <= h -> Forall hstep_ok hs -> stall_free hs = true ->
-  forall n, exists t', run term_new (HResize w h :: firstn n hs) = TOk t' /\ WF t'.
-Proof.
-  intros Hw Hh Hok Hsf n. cbn [run hstep_run].
-  destruct (start_ok w h Hw Hh) as [t0 [E0 W0]]. unfold term_start in E0. rewrite E0; cbn [tbind].
-  pose proof (run_outcome (firstn n hs) 0 w h t0 W0 (Forall_firstn_hs _ n hs Hok)) as Ho.
-  unfold stall_free in Hsf.
-  pose proof (pending_firstn n hs 0) as Hp.
-  destruct (pending 0 hs) eqn:P; [|discriminate].
-  specialize (Hp ltac:(discriminate)).
-  destruct (pending 0 (firstn n hs)) as [e'|]; [|congruence].
-  destruct Ho as (t' & w' & h' & E & W). exists t'; split; auto. exists e', w', h'; exact W.
-Qed.
-
-(* without the guard: the only possible failure is the stall, never a panic *)
-Theorem term_never_panics w h hs :
-  1 <= w -> 1 <= h -> Forall hstep_ok hs ->
-  run term_new (HResize w h :: hs) <> TPanic.
-Proof.
-  intros Hw Hh Hok. cbn [run hstep_run].
-  destruct (start_ok w h Hw Hh) as [t0 [E0 W0]]. unfold term_start in E0. rewrite E0; cbn [tbind].
-  pose proof (run_outcome hs 0 w h t0 W0 Hok) as Ho.
-  destruct (pending 0 hs).
-  - destruct Ho as (t' & w' & h' & E & W). rewrite E; discriminate.
-  - rewrite Ho; discriminate.
-Qed.
-
-(* a stall happens exactly when the schedule lets three events accumulate *)
-Theorem stall_iff w h hs :
-  1 <= w -> 1 <= h -> Forall hstep_ok hs ->
-  (run term_new (HResize w h :: hs) = TStall <-> stall_free hs = false).
-Proof.
-  intros Hw Hh Hok. cbn [run hstep_run].
-  destruct (start_ok w h Hw Hh) as [t0 [E0 W0]]. unfold term_start in E0. rewrite E0; cbn [tbind].
-  pose proof (run_outcome hs 0 w h t0 W0 Hok) as Ho. unfold stall_free.
-  destruct (pending 0 hs).
-  - destruct Ho as (t' & w' & h' & E & W). rewrite E; split; discriminate.
-  - rewrite Ho; split; reflexivity.
-Qed.
-
-(* if the goroutine consumes an event before every sequence, nothing ever stalls *)
-Definition always_drained (hs : list hstep) : Prop :=
-  Forall (fun s => match s with HFeed d _ => d = true | HResize _ _ => True end) hs.
-
-Lemma pending_drained : forall hs e, always_drained hs -> 0 <= e <= 2 ->
-  exists e', pending e hs = Some e' /\ 0 <= e' <= 2.
-Proof.
-  induction hs as [|s rest IH]; intros e Hd He; cbn [pending]; [eauto|].
-  inversion Hd as [|? ? Hs Hrest]; subst.
-  destruct s as [d it|w h]; [|now apply IH].
-  subst d. repeat case_if; try lia; apply IH; auto; lia.
-Qed.
-
-Theorem events_never_stall_drained hs : always_drained hs -> stall_free hs = true.
-Proof.
-  intros Hd; unfold stall_free.
-  destruct (pending_drained hs 0 Hd ltac:(lia)) as [e' [E _]]; now rewrite E.
-Qed.
-
-(* ------------------------------------------------------------------ draw *)
-
-Lemma draw_row_inside fuel : forall (line : trow) row col c r x,
-  In (c, r, x) (draw_row fuel line row col) -> 0 <= col -> (col <= c < zlen line) /\ r = row.
-Proof.
-  induction fuel as [|k IH]; intros line row col c r x Hin Hc; cbn [draw_row] in Hin; [destruct Hin|].
-  destruct (zget line col) as [cell|] eqn:G; [|destruct Hin].
-  pose proof (zget_some_range _ _ _ G) as Hr.
-  destruct Hin as [Heq|Hin].
-  - inversion Heq; subst; split; [lia|reflexivity].
-  - destruct (IH _ _ _ _ _ _ Hin) as [H1 H2]; [case_if; lia|].
-    split; [|assumption]. case_if; lia.
-Qed.
-
-Lemma draw_row_inside_ok w fuel (line : trow) row col c r x :
-  row_ok w line -> 0 <= col -> In (c, r, x) (draw_row fuel line row col) -> 0 <= c < w /\ r = row.
-Proof.
-  intros [Hl HF] Hc Hin.
-  assert (Hgen : forall fuel col, 0 <= col -> In (c, r, x) (draw_row fuel line row col) -> col <= c < w /\ r = row).
-  { clear fuel col Hc Hin. induction fuel as [|k IH]; intros col Hc Hin; cbn [draw_row] in Hin; [destruct Hin|].
-    destruct (zget line col) as [cell|] eqn:G; [|destruct Hin].
-    pose proof (zget_some_range _ _ _ G) as Hr.
-    assert (Hcell : cell_ok cell) by (rewrite Forall_forall in HF; apply HF; eapply zget_In; eauto).
-    destruct Hin as [Heq|Hin].
-    - inversion Heq; subst; split; [lia|reflexivity].
-    - unfold cell_ok in Hcell. destruct (IH _ ltac:(case_if; lia) Hin) as [H1 H2].
-      split; [|assumption]. revert H1; case_if; lia. }
-  destruct (Hgen fuel col Hc Hin); split; [lia|assumption].
-Qed.
-
-Lemma draw_rows_inside w (g : grid) : forall row c r x,
-  Forall (row_ok w) g -> 0 <= row -> In (c, r, x) (draw_rows g row) ->
-  0 <= c < w /\ row <= r < row + zlen g.
-Proof.
-  induction g as [|line rest IH]; intros row c r x HF Hr Hin; cbn [draw_rows] in Hin; [destruct Hin|].
-  inversion HF as [|? ? Hl Hrest]; subst. rewrite zlen_cons. pose proof (zlen_nonneg rest).
-  apply in_app_or in Hin; destruct Hin as [Hin|Hin].
-  - destruct (draw_row_inside_ok w _ _ _ _ _ _ _ Hl ltac:(lia) Hin); subst; lia.
-  - destruct (IH _ _ _ _ Hrest ltac:(lia) Hin); lia.
-Qed.
-
-(* every SetCell of Draw addresses a cell of the window (whose size is the terminal's),
-   and so does the cursor it shows *)
-Theorem draw_inside e w h t : WFs0 e w h t ->
-  (forall c r x, In (c, r, x) (draw t) -> 0 <= c < w /\ 0 <= r < h) /\
-  0 <= t_col t < w /\ 0 <= t_row t < h.
-Proof.
-  intros H; split; [|destruct H; auto].
-  intros c r x Hin. destruct (WFs_active _ _ _ _ H) as [Hl HF].
-  destruct (draw_rows_inside w (active t) 0 c r x HF ltac:(lia) Hin); lia.
-Qed.
